@@ -1,30 +1,31 @@
 // C08 legs: histories of editor actions / raw LSP + disk events against the REAL server.
 //
 // case line:  <mode> <init> <events>
-//   mode    A = also start a fresh server after every step at which no buffer has unsaved edits, E = only after the
-//           last step, N = never
-//   init    initial disk, "a=ld1,b=u1" or "-"          (file letters: a b c d inside the workspace, p q outside)
-//   events  ";"-separated, "-" for none
-//     editor actions (disk write BEFORE the notification, as an editor does):
-//       o<f>            didOpen with the disk text (skipped when the file is not on disk or already open)
-//       c<f>=<content>  didChange, full text (skipped when not open)
-//       s<f>            write buffer to disk, didSave with text (skipped when not open)
-//       x<f>            didClose (skipped when not open)
-//       w<item>+<item>  one didChangeWatchedFiles; item = C<f>=<content> (write, created) | M<f>=<content> (write, changed)
-//                       | D<f> (remove, deleted)
-//     raw events (non-conformant stream):
-//       O<f>=<content> didOpen with this text | H<f>=<content> didChange | S<f>=<content> didSave (no disk write) |
-//       X<f> didClose | W<item>+.. watched without touching the disk (items C<f> M<f> D<f>) |
-//       k<f>=<content> silent disk write | K<f> silent disk remove
-//   content = "e" (empty file) or a sequence of statements, one per line:
-//       l `local v = 1` | c `print(1)` | s syntax error | d<k> `g<k> = 1` | u<k> `print(g<k>)` | r<f> `require("<f>")`
+//
+//	mode    A = also start a fresh server after every step at which no buffer has unsaved edits, E = only after the
+//	        last step, N = never
+//	init    initial disk, "a=ld1,b=u1" or "-"          (file letters: a b c d inside the workspace, p q outside)
+//	events  ";"-separated, "-" for none
+//	  editor actions (disk write BEFORE the notification, as an editor does):
+//	    o<f>            didOpen with the disk text (skipped when the file is not on disk or already open)
+//	    c<f>=<content>  didChange, full text (skipped when not open)
+//	    s<f>            write buffer to disk, didSave with text (skipped when not open)
+//	    x<f>            didClose (skipped when not open)
+//	    w<item>+<item>  one didChangeWatchedFiles; item = C<f>=<content> (write, created) | M<f>=<content> (write, changed)
+//	                    | D<f> (remove, deleted)
+//	  raw events (non-conformant stream; they do not touch the editor-side bookkeeping of buffers / unsaved flags):
+//	    O<f>=<content> didOpen with this text | H<f>=<content> didChange | S<f>=<content> didSave (no disk write) |
+//	    X<f> didClose | W<item>+.. watched without touching the disk (items C<f> M<f> D<f>) |
+//	    k<f>=<content> silent disk write | K<f> silent disk remove
+//	content = "e" (empty file) or a sequence of statements, one per line:
+//	    l `local v = 1` | c `print(1)` | s syntax error | d<k> `g<k> = 1` | u<k> `print(g<k>)` | r<f> `require("<f>")`
 //
 // answer: steps joined by "|", step 0 = after initialize/initialized; step = <view> or <view>~<fresh view>;
-//   view = "-" or "a:4@0,2@1;b:1@3"  (per file the last published list in the order sent, type@line)
+//
+//	view = "-" or "a:4@0,2@1;b:1@3"  (per file the last published list in the order sent, type@line)
 package main
 
 import (
-	"bufio"
 	"bytes"
 	"fmt"
 	"os"
@@ -61,11 +62,7 @@ func c08Render(code string) string {
 		case 'c':
 			sb.WriteString("print(1)\n")
 		case 's':
-			if v := os.Getenv("C08_SYN"); v != "" {
-				sb.WriteString(v + "\n")
-			} else {
-				sb.WriteString(c08SyntaxLine + "\n")
-			}
+			sb.WriteString(c08SyntaxLine + "\n")
 		case 'd':
 			i++
 			sb.WriteString("g" + string(code[i]) + " = 1\n")
@@ -136,7 +133,7 @@ func (e *c08Env) view() string {
 	return e.srv.renderView(e.paths, e.short, []string{e.base})
 }
 
-// do performs one event; returns false when the event was skipped by an editor-side precondition
+// do performs one event (an editor action is skipped when its editor-side precondition fails)
 func (e *c08Env) do(ev string) {
 	kind, rest := ev[0], ev[1:]
 	switch kind {
@@ -325,5 +322,4 @@ func init() {
 	register("c08.batch", c08History)
 	register("c08.one", c08One)
 	register("c08.fresh", c08Fresh)
-	_ = bufio.NewReader
 }
